@@ -203,7 +203,15 @@ def _split_logical(content: str, rng, style: V3Style, kind: str, obs: dict):
     pos = 0
     for k, p in enumerate(pieces):
         last = k == len(pieces) - 1
-        lines.append(prefix + p + ("" if last else "-"))
+        pad_l = pad_r = ""
+        if style.blanks > 1 and kind in ("atom", "bond") and rng.random() < 0.3:
+            # free format: extra blanks after the 'M  V30 ' prefix of the first piece and at the end of an uncontinued line
+            if k == 0 and len(prefix + p) < style.max_len - 3:
+                pad_l = " " * rng.randint(1, 2)
+            if last and len(prefix + pad_l + p) < style.max_len - 3:
+                pad_r = " " * rng.randint(1, 2)
+            obs["padded_lines"] = obs.get("padded_lines", 0) + 1
+        lines.append(prefix + pad_l + p + pad_r + ("" if last else "-"))
         pos += len(p)
         if not last:
             before = content[pos - 1]
